@@ -62,7 +62,7 @@ def common_params(rng, strat, ind):
         "p_cross": rng.choice([0.0, 0.3, 0.9, 1.0]) if strat != "de" else rng.choice([0.3, 0.9, 1.0]),
         "p_mutation": rng.choice([0.0, 0.04, 0.3, 1.0]),
         "cache": rng.choice([0, 0, 7, 10]),
-        "fitk": rng.choice([1, 5, 50, 400]) if ind != "mep" else rng.choice([1, 10, 100, 500]),
+        "fitk": rng.choice([1, 5, 50, 400]) if ind in ("ga", "de") else rng.choice([1, 10, 100, 500]),
         "age_gap": rng.choice([1, 2, 3, 5]),
         "p_same": rng.choice([0.0, 0.5, 0.75, 1.0]),
     }
@@ -74,7 +74,8 @@ def common_params(rng, strat, ind):
     return p
 
 
-COMBOS = [("std", "mep"), ("std", "ga"), ("alps", "mep"), ("alps", "ga"), ("de", "de"), ("alps", "de")]
+COMBOS = [("std", "mep"), ("std", "ga"), ("alps", "mep"), ("alps", "ga"), ("de", "de"), ("alps", "de"),
+          ("std", "team"), ("alps", "team")]
 
 
 def fmt(kind, p):
